@@ -83,3 +83,95 @@ type CellInput struct {
 	Want     []byte `json:"want"`
 	Note     string `json:"note,omitempty"`
 }
+
+// ---- sequential walks -------------------------------------------------------------
+
+// WalkInput is the replay form of a sequential walk: the cells are decoded one
+// right after the other by bare CellBytes calls (private input buffers); the
+// counterexample is the whole (short) sequence.
+type WalkInput struct {
+	Name  string      `json:"name"`
+	Cells []CellInput `json:"cells"`
+}
+
+// CheckWalk decodes the cells in order. Each text must be right, and the text
+// handed out for the previous cell must still be what it was after the next
+// cell has been decoded (a decoder that memoises part of the last value, or
+// builds texts in a recycled buffer, shows here). It returns the index of the
+// first offending cell (-1 none) and the reason.
+func CheckWalk(cells []CellInput) (int, string) {
+	var prevGot, prevWant []byte
+	for i, c := range cells {
+		data := append(append([]byte{}, c.Raw...), Post...)
+		var txt []byte
+		var n int
+		var err error
+		pan := chk.Catch(func() { txt, n, err = replication.CellBytes(data, 0, c.Type, c.Meta, c.Unsigned) })
+		switch {
+		case pan != "":
+			return i, "panic: " + pan
+		case err != nil:
+			return i, "error: " + err.Error()
+		case n != len(c.Raw):
+			return i, fmt.Sprintf("consumed %d bytes, the value has %d", n, len(c.Raw))
+		case !bytes.Equal(txt, c.Want):
+			return i, fmt.Sprintf("decoded %q, expected %q", Clip(txt), Clip(c.Want))
+		}
+		if prevGot != nil && !bytes.Equal(prevGot, prevWant) {
+			return i, fmt.Sprintf("the text returned for the previous cell reads %q after this cell was decoded, it was %q", Clip(prevGot), Clip(prevWant))
+		}
+		prevGot, prevWant = txt, c.Want
+	}
+	return -1, ""
+}
+
+// RunWalk runs a walk forwards and backwards and reports the first offending
+// cell together with its (at most 8) predecessors. It returns the number of decodes.
+func RunWalk(r *chk.Run, keyPrefix, name string, cells []CellInput) int64 {
+	var n int64
+	for dir := 0; dir < 2; dir++ {
+		seq := cells
+		if dir == 1 {
+			seq = make([]CellInput, len(cells))
+			for i, c := range cells {
+				seq[len(cells)-1-i] = c
+			}
+		}
+		n += int64(len(seq))
+		i, why := CheckWalk(seq)
+		if i < 0 {
+			continue
+		}
+		lo := i - 8
+		if lo < 0 {
+			lo = 0
+		}
+		in := WalkInput{Name: name, Cells: append([]CellInput{}, seq[lo:i+1]...)}
+		if j, w := CheckWalk(in.Cells); j >= 0 {
+			why = w // the short sequence reproduces it
+		} else {
+			in.Cells = append([]CellInput{}, seq[:i+1]...) // needs the whole prefix
+		}
+		c := seq[i]
+		r.Report(chk.Violation{
+			Key:    keyPrefix + ":walk:" + name,
+			What:   fmt.Sprintf("%s, cell %d of a sequential walk (type %d meta %#x raw % x, decoded right after %d other cells in the same process): %s", name, i, c.Type, c.Meta, Clip(c.Raw), len(in.Cells)-1, why),
+			Kind:   "walk",
+			Replay: in,
+			Recheck: func() string {
+				_, w := CheckWalk(in.Cells)
+				return w
+			},
+		})
+	}
+	return n
+}
+
+// ReplayWalk replays a WalkInput.
+func ReplayWalk(cells []CellInput) (bool, string) {
+	i, why := CheckWalk(cells)
+	if i < 0 {
+		return false, "every cell of the sequence decodes to the expected text"
+	}
+	return true, fmt.Sprintf("cell %d: %s", i, why)
+}
